@@ -43,7 +43,7 @@ import (
 // See Antlr grammar at https://github.com/kstenerud/go-concise-encoding/tree/master/codegen/cte
 
 func ParseDocument(document string, eventReceiver events.DataEventReceiver) error {
-	errorListener := new(reportingErrorListener)
+	errorListener := &reportingErrorListener{document: document, firstErrorIndex: -1}
 
 	is := antlr.NewInputStream(document)
 	lexer := parser.NewContextualCTELexer(is)
@@ -58,17 +58,79 @@ func ParseDocument(document string, eventReceiver events.DataEventReceiver) erro
 
 	listener := newCteListener(eventReceiver)
 
-	antlr.ParseTreeWalkerDefault.Walk(listener, p.Cte())
+	tree := p.Cte()
+	if errorListener.Error == nil {
+		antlr.ParseTreeWalkerDefault.Walk(listener, tree)
+	} else {
+		// Whatever follows the first syntax error is the product of error
+		// recovery, not of the document: only report what precedes it.
+		walkUntil(listener, tree, errorListener.firstErrorIndex)
+	}
 	return errorListener.Error
+}
+
+// Walk the parse tree like antlr.ParseTreeWalker does, but stop at the first
+// node that reaches characterIndex or beyond. Returns false if it stopped.
+func walkUntil(listener antlr.ParseTreeListener, tree antlr.Tree, characterIndex int) bool {
+	switch node := tree.(type) {
+	case antlr.ErrorNode:
+		return false
+	case antlr.TerminalNode:
+		if node.GetSymbol().GetStop() >= characterIndex {
+			return false
+		}
+		listener.VisitTerminal(node)
+		return true
+	default:
+		ctx := tree.(antlr.RuleNode).GetRuleContext().(antlr.ParserRuleContext)
+		if ctx.GetStart() == nil || ctx.GetStart().GetStart() >= characterIndex {
+			return false
+		}
+		listener.EnterEveryRule(ctx)
+		ctx.EnterRule(listener)
+		for i := 0; i < tree.GetChildCount(); i++ {
+			if !walkUntil(listener, tree.GetChild(i), characterIndex) {
+				return false
+			}
+		}
+		if ctx.GetStop() == nil || ctx.GetStop().GetStop() >= characterIndex {
+			return false
+		}
+		ctx.ExitRule(listener)
+		listener.ExitEveryRule(ctx)
+		return true
+	}
 }
 
 type reportingErrorListener struct {
 	*antlr.DefaultErrorListener
-	Error error
+	Error           error
+	document        string
+	firstErrorIndex int
 }
 
 func (_this *reportingErrorListener) SyntaxError(recognizer antlr.Recognizer, offendingSymbol interface{}, line, column int, msg string, e antlr.RecognitionException) {
 	_this.Error = fmt.Errorf("line %v, col %v: %v", line, column, msg)
+	index := _this.characterIndex(line, column)
+	if _this.firstErrorIndex < 0 || index < _this.firstErrorIndex {
+		_this.firstErrorIndex = index
+	}
+}
+
+// Convert a line (1-based) and column (0-based), both counted in characters,
+// to a character index into the document.
+func (_this *reportingErrorListener) characterIndex(line, column int) int {
+	index := 0
+	for _, ch := range _this.document {
+		if line <= 1 {
+			break
+		}
+		if ch == '\n' {
+			line--
+		}
+		index++
+	}
+	return index + column
 }
 
 type bailErrorStrategy struct {
